@@ -621,6 +621,11 @@ static const char *vin = "abX"; static int vpos, vreq;
         add("c99:no" + fn, c99(["stack no" + fn]), p_absent(fn))
     add("c99:unsupported-refused", [(["--emit=c99", "--header-file=H.h"], []), (["--emit=c99", "--tables-file=T.tbl"], []), (["--emit=c99", "-+"], [])],
         lambda P: None if P.rc != 0 and P.stderr.strip() else "a feature the c99 back end documents as unsupported was accepted silently (rc=%s)" % P.rc)
+    # contradictions that must be refused in every spelling and order (the command line, %option, one of each): the C++ scanner class has
+    # no bison bridge (round-9 seed C19-r9m2 tested the wrong flag, so only bison-locations was still refused)
+    for bo in ("bison-bridge", "bison-locations"):
+        add("c++:%s-refused" % bo, [(["-+", "--" + bo], []), ([], ["c++ " + bo]), ([], [bo + " c++"]), (["-+"], [bo]), (["--" + bo], ["c++"])],
+            lambda P, bo=bo: None if P.rc != 0 and P.stderr.strip() else "%s together with the C++ scanner was accepted silently (rc=%s)" % (bo, P.rc))
     return T
 
 
